@@ -353,13 +353,13 @@ func (s *socket) SetOption(name string, value interface{}) error {
 			return mangos.ErrBadValue
 		}
 	case mangos.OptionReconnectTime:
-		if v, ok := value.(time.Duration); ok {
+		if v, ok := value.(time.Duration); ok && v >= 0 {
 			s.reconnMinTime = v
 		} else {
 			return mangos.ErrBadValue
 		}
 	case mangos.OptionMaxReconnectTime:
-		if v, ok := value.(time.Duration); ok {
+		if v, ok := value.(time.Duration); ok && v >= 0 {
 			s.reconnMaxTime = v
 		} else {
 			return mangos.ErrBadValue
